@@ -843,6 +843,8 @@ class FuncAnalysis:
         self.ctx.resolved_calls += 1
         if target.is_property:
             return None
+        if "staticmethod" in target.decorators:
+            return self._inline(target, list(args), kws, site, depth)
         return self._inline(target, [self_t] + list(args), kws, site, depth)
 
     def _new(self, cls: str, args: List[Term], kws) -> Term:
